@@ -1,4 +1,4 @@
-import XModel.Table
+import XModel.TableSel
 /-!
 # C08 — row selection follows the documented selector semantics, in table order
 Model: `XModel/Table.lean` (`getRowIndices`, `getRegexpIndices`, `indicesOf`, `maskOf`, `rowsOf`).
@@ -14,6 +14,104 @@ theorem C08_pattern_plain (t : Tbl) (m : Match) (sel name : String) (offset : In
     (getRegexpIndices t m sel).2 =
       .ok (((enumFrom 0 t.indexCol).filter (fun p => m p.2)).map (fun p => (p.1 : Int) + offset)) := by
   simp [getRegexpIndices, h]
+
+/-- the same, as a specification: strictly ascending (table order), and a position is listed exactly when the
+    name of a row matches and the position is that row shifted by the offset -/
+theorem C08_pattern_plain_spec (t : Tbl) (m : Match) (sel name : String) (offset : Int)
+    (h : splitNameCountOffset t sel = .ok (name, none, offset)) :
+    ∃ l, (getRegexpIndices t m sel).2 = .ok l ∧ l.Pairwise (· < ·) ∧
+      ∀ j, j ∈ l ↔ ∃ (i : Nat) (nm : String), t.indexCol[i]? = some nm ∧ m nm = true ∧ j = (i : Int) + offset :=
+  ⟨_, C08_pattern_plain t m sel name offset h, positionsWhere_spec t.indexCol m offset⟩
+
+/-- a Boolean mask selects exactly the positions holding `True`, ascending -/
+theorem C08_mask_selector (t : Tbl) (m : String → Match) (l : List Bool) (hne : l ≠ []) :
+    ∃ r, getRowIndices t m (.bools l) = (t, .ok (.idx r)) ∧ r.Pairwise (· < ·) ∧
+      ∀ j, j ∈ r ↔ ∃ i : Nat, l[i]? = some true ∧ j = (i : Int) := by
+  have hs := positionsWhere_spec l (fun b => b) 0
+  refine ⟨positionsWhere l (fun b => b) 0, ?_, hs.1, ?_⟩
+  · cases l with
+    | nil => exact absurd rfl hne
+    | cons b bs =>
+      simp only [getRowIndices, List.isEmpty_cons, Bool.false_eq_true, if_false, positionsWhere]
+      congr 3
+  · intro j
+    rw [hs.2 j]
+    constructor
+    · rintro ⟨i, x, hx, hq, rfl⟩
+      have hq' : x = true := hq
+      subst hq'
+      exact ⟨i, hx, by simp⟩
+    · rintro ⟨i, hx, rfl⟩
+      exact ⟨i, true, hx, rfl, by simp⟩
+
+/-- the inclusive value range `lo <= col <= hi`, either bound optional -/
+def inRange (lo hi : Option Int) : Cell → Bool
+  | .int v => (match lo with | some l => decide (l ≤ v) | none => true) &&
+              (match hi with | some h => decide (v ≤ h) | none => true)
+  | _ => false
+
+def boundOf : Option Int → Bound
+  | none => .none
+  | some i => .int i
+
+/-- the selector `lo:hi:'col'` (bounds not strings, not both absent) is `valueRange` on that column -/
+theorem C08_value_range_is (t : Tbl) (m : String → Match) (lo hi : Option Int) (cname : String) (col : List Cell)
+    (hcol : t.col cname = some col) (hb : lo.isSome ∨ hi.isSome) :
+    getRowIndices t m (.slice (boundOf lo) (boundOf hi) (.str cname)) =
+      (t, valueRange col (lo.map Cell.int) (hi.map Cell.int)) := by
+  cases lo <;> cases hi <;> simp_all [getRowIndices, boundOf]
+
+/-- a value range on an integer column selects exactly the rows with `lo <= col <= hi` (either bound
+    optional), ascending -/
+theorem C08_value_range (lo hi : Option Int) (col : List Cell) (hint : ∀ x ∈ col, ∃ i, x = Cell.int i) :
+    ∃ r, valueRange col (lo.map Cell.int) (hi.map Cell.int) = .ok (.idx r) ∧
+      r.Pairwise (· < ·) ∧
+      ∀ j, j ∈ r ↔ ∃ (i : Nat) (v : Int), col[i]? = some (Cell.int v) ∧
+        (∀ l, lo = some l → l ≤ v) ∧ (∀ h, hi = some h → v ≤ h) ∧ j = (i : Int) := by
+  have hs := positionsWhere_spec col (inRange lo hi) 0
+  have hok : ∀ v : Int, rangeOk (lo.map Cell.int) (hi.map Cell.int) (.int v) = some (inRange lo hi (.int v)) := by
+    intro v
+    cases lo <;> cases hi <;> simp [rangeOk, cellLe, inRange]
+  refine ⟨positionsWhere col (inRange lo hi) 0, ?_, hs.1, ?_⟩
+  · unfold valueRange
+    have hall : col.all (fun x => (rangeOk (lo.map Cell.int) (hi.map Cell.int) x).isSome) = true := by
+      rw [List.all_eq_true]
+      intro x hx
+      obtain ⟨i, rfl⟩ := hint x hx
+      rw [hok]; rfl
+    rw [if_pos hall]
+    congr 2
+    unfold positionsWhere
+    have : (enumFrom 0 col).filter (fun p => (rangeOk (lo.map Cell.int) (hi.map Cell.int) p.2).getD false) =
+        (enumFrom 0 col).filter (fun p => inRange lo hi p.2) := by
+      apply List.filter_congr
+      intro p hp
+      obtain ⟨i, x⟩ := p
+      have hx : x ∈ col := List.mem_of_getElem? ((mem_enumFrom col 0 i x).mp hp).2
+      obtain ⟨v, rfl⟩ := hint x hx
+      simp only [hok]; rfl
+    rw [this]
+    apply List.map_congr_left
+    intro p _
+    simp
+  · intro j
+    rw [hs.2 j]
+    constructor
+    · rintro ⟨i, x, hx, hq, rfl⟩
+      obtain ⟨v, rfl⟩ := hint x (List.mem_of_getElem? hx)
+      refine ⟨i, v, hx, ?_, ?_, by simp⟩
+      · intro l hl; subst hl; simp [inRange] at hq; exact hq.1
+      · intro h hh; subst hh; simp [inRange] at hq; exact hq.2
+    · rintro ⟨i, v, hx, h1, h2, rfl⟩
+      refine ⟨i, .int v, hx, ?_, by simp⟩
+      cases lo <;> cases hi <;> simp_all [inRange]
+
+/-- **`rows[s1, s2] = rows[s1].rows[s2]` on the data**: the rows at positions `ps2` of the view at positions
+    `ps1` are the rows at positions `ps1[ps2]` of the table -/
+theorem C08_compose (t : Tbl) (n : Nat) (hfull : ∀ p ∈ t.data, p.2.length = n) (ps1 ps2 : List Nat)
+    (h1 : ∀ j ∈ ps1, j < n) :
+    selectRows (selectRows t ps1) ps2 = selectRows t (ps2.filterMap (fun k => ps1[k]?)) :=
+  selectRows_comp t n hfull ps1 ps2 h1
 
 /-- `rows.mask[sel]` and `rows[sel]` are computed from `rows.indices[sel]`: they describe the same rows -/
 theorem C08_mask_rows_from_indices (t : Tbl) (m : String → Match) (s : Sel) (l : List Int) (t1 : Tbl)
